@@ -49,7 +49,7 @@ Definition dec_reply (m v : Z) : reply :=
   else if Z.leb m 3 then RVal v
   else if Z.eqb m 4 || Z.eqb m 9 then RNil     (* 9: no answer at all (response timeout) *)
   else if Z.eqb m 5 then RErr
-  else if Z.eqb m 7 || Z.eqb m 8 then RVal (-7)   (* "PONG": a value that is never a ping number *)
+  else if Z.eqb m 7 || Z.eqb m 8 || Z.eqb m 10 || Z.eqb m 11 then RVal (-7)   (* "PONG", "007", "+7": strings that are never the echo of a ping number *)
   else RDrop.
 
 Definition dec_ucmd (k : Z) : ucmd :=
